@@ -253,7 +253,20 @@ class ListMutator(Contract):
         st, args, kwargs, info = self.args(cx, ov, st)
         info.update(s0=s0, V=V, self_ref=self_ref)
         info.setdefault("witness", {})["items"] = s0
+        info["concretise"] = lambda m: self.concretise(m, ov, info)
         return st, [self_ref] + args, kwargs, info
+
+    def concrete_args(self, U, ov, info):
+        """-> dict of concrete arguments for the replay harness (replay/containers.py)"""
+        return {}
+
+    def concretise(self, m, ov, info):
+        from vc.concretise import Universe
+        U = Universe(m)
+        items = U.seq(info["s0"])
+        args = self.concrete_args(U, ov, info)
+        return dict(harness="containers", family="list", cls=self.cls, op=self.fname, ov=ov, items=items, args=args,
+                    validator=U.validator_table(info["V"]))
 
     # reference: what to validate and which builtin call to make
     def reference(self, cx, I, ov, info):
@@ -459,6 +472,11 @@ class TLSetItem(ListMutator):
         r, S, st = opaque_iterable(cx, st)
         return st, [sl, r], {}, dict(key=sl, S=S, witness=dict(value=S, **slice_witness(sl)))
 
+    def concrete_args(self, U, ov, info):
+        if ov == "int":
+            return dict(key=U.int(info["key"].t), value=U.val(info["x"]))
+        return dict(key=U.slice(info["key"]), value=U.seq(info["S"]))
+
     def reference(self, cx, I, ov, info):
         V = info["V"]
         if ov == "int":
@@ -479,6 +497,9 @@ class TLDelItem(ListMutator):
         sl = sym_slice(cx, "key")
         return st, [sl], {}, dict(key=sl, witness=slice_witness(sl))
 
+    def concrete_args(self, U, ov, info):
+        return dict(key=U.int(info["key"].t) if ov == "int" else U.slice(info["key"]))
+
     def reference(self, cx, I, ov, info):
         return [], self.run_builtin(I, info, "__delitem__", [info["key"]])
 
@@ -490,6 +511,9 @@ class TLAppend(ListMutator):
     def args(self, cx, ov, st):
         x = z3.Const("object", Val)
         return st, [VElem(x)], {}, dict(x=x, witness=dict(object=x))
+
+    def concrete_args(self, U, ov, info):
+        return dict(object=U.val(info["x"]))
 
     def reference(self, cx, I, ov, info):
         V = info["V"]
@@ -504,6 +528,9 @@ class TLExtend(ListMutator):
     def args(self, cx, ov, st):
         r, S, st = opaque_iterable(cx, st, "iterable")
         return st, [r], {}, dict(S=S, witness=dict(iterable=S))
+
+    def concrete_args(self, U, ov, info):
+        return dict(iterable=U.seq(info["S"]))
 
     def reference(self, cx, I, ov, info):
         V = info["V"]
@@ -525,6 +552,9 @@ class TLIMul(ListMutator):
         m = z3.Int("value")
         return st, [VInt(m)], {}, dict(m=m, witness=dict(value=m))
 
+    def concrete_args(self, U, ov, info):
+        return dict(value=U.int(info["m"]))
+
     def reference(self, cx, I, ov, info):
         return [], self.run_builtin(I, info, "__imul__", [VInt(info["m"])])
 
@@ -536,6 +566,9 @@ class TLInsert(ListMutator):
     def args(self, cx, ov, st):
         i, x = z3.Int("index"), z3.Const("object", Val)
         return st, [VInt(i), VElem(x)], {}, dict(i=i, x=x, witness=dict(index=i, object=x))
+
+    def concrete_args(self, U, ov, info):
+        return dict(index=U.int(info["i"]), object=U.val(info["x"]))
 
     def reference(self, cx, I, ov, info):
         V = info["V"]
@@ -553,6 +586,9 @@ class TLPop(ListMutator):
         i = z3.Int("index")
         return st, [VInt(i)], {}, dict(i=i, witness=dict(index=i))
 
+    def concrete_args(self, U, ov, info):
+        return dict(index=U.int(info["i"])) if info["i"] is not None else {}
+
     def reference(self, cx, I, ov, info):
         return [], self.run_builtin(I, info, "pop", [VInt(info["i"])] if info["i"] is not None else [])
 
@@ -564,6 +600,9 @@ class TLRemove(ListMutator):
     def args(self, cx, ov, st):
         x = z3.Const("value", Val)
         return st, [VElem(x)], {}, dict(x=x, witness=dict(value=x))
+
+    def concrete_args(self, U, ov, info):
+        return dict(value=U.val(info["x"]))
 
     def reference(self, cx, I, ov, info):
         return [], self.run_builtin(I, info, "remove", [VElem(info["x"])])
@@ -603,6 +642,9 @@ class TLSort(ListMutator):
         keyf = VElem(z3.Const("keyfn", Val))
         kw = {"key": keyf, "reverse": VBool(rv)}
         return st, [], dict(kw), dict(kw=kw, witness=dict(reverse=rv))
+
+    def concrete_args(self, U, ov, info):
+        return dict(reverse=U.bool(info["kw"]["reverse"].t))
 
     def reference(self, cx, I, ov, info):
         return [], self.run_builtin(I, info, "sort", [], dict(info["kw"]))
